@@ -185,6 +185,28 @@ func descBody(ct, comment string, a, r, u bool, users, wild, keys bool) body {
 	return body{ct, string(b), strings.Join([]string{"desc", ctCode(ct), undash(comment), b01(a) + b01(r) + b01(u), b01(users) + b01(wild) + b01(keys)}, ",")}
 }
 
+// descBodyEmptySecrets: a definition that carries the secret-bearing fields
+// PRESENT BUT EMPTY ("users": {}, "authKeys": []).  It is as unsanitised as
+// one that carries users: accepting it would wipe the stored users, their
+// passwords, and the keys.  (Encoded for the model as '2' = present, empty.)
+func descBodyEmptySecrets(ct, comment string, users, keys bool) body {
+	m := map[string]any{"comment": comment}
+	if users {
+		m["users"] = map[string]any{}
+	}
+	if keys {
+		m["authKeys"] = []any{}
+	}
+	b, _ := json.Marshal(m)
+	d := func(x bool) string {
+		if x {
+			return "2"
+		}
+		return "0"
+	}
+	return body{ct, string(b), strings.Join([]string{"desc", ctCode(ct), undash(comment), "000", d(users) + "0" + d(keys)}, ",")}
+}
+
 func userBody(ct, perms string, pw pwSpec) body {
 	b, _ := json.Marshal(userJSON(userDef{pw: pw, perms: perms}))
 	return body{ct, string(b), strings.Join([]string{"user", ctCode(ct), perms, pw.String()}, ",")}
